@@ -54,6 +54,16 @@ theorem nodup_map_inj {β γ} (f : β → γ) (l : List β) (h : (l.map f).Nodup
         exact absurd hm h.1
       · exact ih h.2 hxr hyr
 
+theorem nodup_map_of_imp {β γ δ} (f : β → γ) (g : β → δ) (hfg : ∀ x y, g x = g y → f x = f y) :
+    ∀ (l : List β), (l.map f).Nodup → (l.map g).Nodup
+  | [], _ => List.nodup_nil
+  | a :: r, h => by
+    simp only [List.map_cons, List.nodup_cons] at h ⊢
+    refine ⟨?_, nodup_map_of_imp f g hfg r h.2⟩
+    intro hm
+    obtain ⟨y, hy, hgy⟩ := List.mem_map.mp hm
+    exact h.1 (List.mem_map.mpr ⟨y, hy, hfg y a hgy⟩)
+
 /-- the hypotheses `benchOKB` packs -/
 structure BenchOK (stmts : List BStmt) : Prop where
   nd : ((benchGates stmts).map (·.name)).Nodup
